@@ -81,15 +81,17 @@ func collNontrivial(h *collh.History) bool {
 }
 
 type collRunner struct {
-	cfg     *lib.Config
-	res     *lib.Result
-	cf      *lib.CasesFile
+	cfg *lib.Config
+	res *lib.Result
+	cf  *lib.CasesFile
+	// cfKeys: the histories of the families about keys that are collections (large values) go to a file of their
+	// own, evaluated in parallel with the other one
+	cfKeys  *lib.CasesFile
 	total   int
 	dcoq    int
 	keyHist int
-	// tieAmbiguous: also compare with the model the histories in which Equals and structural equality of a compared
-	// pair differ (a hash entry against its two element array, two hashes with the same entries in another order):
-	// the Go reference takes no side there (collh/ref.go), the model does (Coll.v: keq = veq, property C07)
+	// tieAmbiguous: also compare with the model the histories that the reference flags Ambiguous (none since the
+	// reference keys hashes by Equals, collOpts.KeysByEquals)
 	tieAmbiguous bool
 }
 
@@ -306,7 +308,12 @@ func (r *collRunner) check(ops []collh.Op, toCoq bool, family string) {
 		if bad {
 			r.dcoq++
 		}
-		r.cf.Add(collCase(h), collInput(h.Ops))
+		cf := r.cf
+		switch family {
+		case "key-pairs", "key-pairs-random", "random-alike-keys", "equal-not-identical-keys":
+			cf = r.cfKeys
+		}
+		cf.Add(collCase(h), collInput(h.Ops))
 	}
 	if r.total%4001 == 1 {
 		outs := make([]string, len(h.Outs))
@@ -340,7 +347,8 @@ func replayColl(cfg *lib.Config, res *lib.Result, in interface{}, cf *lib.CasesF
 }
 
 func runColl(cfg *lib.Config, res *lib.Result, rng *lib.Rng) {
-	r := &collRunner{cfg: cfg, res: res, cf: newCollCases()}
+	r := &collRunner{cfg: cfg, res: res, cf: newCollCases(), cfKeys: newCollCases()}
+	r.cfKeys.Obligations = map[string]string{"coll_keys_model": "coll_mismatches cases"}
 	for _, ops := range collCorpus() {
 		r.check(ops, true, "corpus")
 	}
@@ -374,6 +382,7 @@ func runColl(cfg *lib.Config, res *lib.Result, rng *lib.Rng) {
 		r.check(collh.RandomHistory(g, 6+g.Intn(54), collh.ModelWeights), i < coq, "random")
 	}
 	res.CorrFiles = append(res.CorrFiles, r.cf.WriteTo(cfg.Out, "cases_coll"))
+	res.CorrFiles = append(res.CorrFiles, r.cfKeys.WriteTo(cfg.Out, "cases_coll_keys"))
 }
 
 func collCorpus() [][]collh.Op {
